@@ -101,6 +101,10 @@ def gen_driver_plan(rng):
         rng.shuffle(plan["drivers"])
     for d in plan["drivers"]:
         d["form"] = gen_form(rng, d["lo"], d["hi"], widths[d["sig"]], 2)
+        if d["kind"] == "logic" and rng.random() < 0.15:
+            # the target written as the low window of Cat(target, <an undriven input>): the window ends exactly on
+            # the boundary between the two parts and the input is not touched
+            d["form"] = ["catpad", d["form"]]
     return plan
 
 
@@ -166,8 +170,13 @@ def build_driver_plan(plan):
     ctl = Signal(name="ctl")
     ports = sigs + [src, ctl]
     for k, d in enumerate(plan["drivers"]):
-        tgt = build_target(sigs[d["sig"]], d["lo"], d["hi"], d.get("form", ["plain"]))
+        form = d.get("form", ["plain"])
         n = d["hi"] - d["lo"]
+        if form[0] == "catpad":
+            from amaranth.hdl import Cat
+            tgt = Cat(build_target(sigs[d["sig"]], d["lo"], d["hi"], form[1]), src)[0:n]
+        else:
+            tgt = build_target(sigs[d["sig"]], d["lo"], d["hi"], form)
         if d["kind"] == "inst":
             mods[d["mod"]].submodules += Instance("prim", o_q=tgt, i_d=src)
         elif d["kind"] == "mem":
@@ -194,7 +203,17 @@ def build_driver_plan(plan):
         setattr(mods[plan["tree"][k]].submodules, f"m{k}", sub)
     mods[0].domains.sync = ClockDomain("sync")
     mods[0].domains.fast = ClockDomain("fast")
-    return mods[0], ports
+    # ports with explicit directions: a signal nobody drives is an input (and must stay undriven)
+    from amaranth.hdl._ir import PortDirection
+    driven = {d["sig"] for d in plan["drivers"]}
+    pd = {}
+    for i, sg in enumerate(sigs):
+        pd[f"s{i}"] = (sg, PortDirection.Output if i in driven else PortDirection.Input)
+    pd["src"] = (src, PortDirection.Input)
+    pd["ctl"] = (ctl, PortDirection.Input)
+    for p_ in ports[len(sigs) + 2:]:
+        pd[p_.name] = (p_, None)
+    return mods[0], pd
 
 
 def run_driver_plan(plan, out, label="driver-plan"):
